@@ -122,7 +122,9 @@ class SepWorld(BaseWorld):
             elif op == 'partition':
                 nm = self.pick(r, 1)
                 ps = self.cfg['partition_spec']
-                K = [r.choice([1e-3, 0.01, 0.2, 0.629, 1.0, 1.59, 5.0, 100.0, 1e3]) for _ in ps['IDs']]
+                kset = r.choice([[1e-3, 0.01, 0.2, 0.629, 1.0, 1.59, 5.0, 100.0, 1e3]] * 4 +
+                                [[1.0, 1.1, 1.59, 5.0, 100.0], [1.0, 0.9, 0.629, 0.2, 0.01]])   # one-sided sets too
+                K = [r.choice(kset) for _ in ps['IDs']]
                 ev = {'op': op, 'feed': nm[0], 'top': 'pt', 'bottom': 'pb', 'IDs': list(ps['IDs']), 'K': K,
                       'phi': r.choice([None, None, None, 0.25, 0.5, 0.9]),
                       'top_chemicals': list(ps['top_chemicals']), 'bottom_chemicals': list(ps['bottom_chemicals']),
@@ -424,7 +426,47 @@ class SepWorld(BaseWorld):
                     if (dev > 1e-7 + tl + tl[ref]).any():
                         self.fail('partition-K', f'achieved y/x over K is {ratio.tolist()} (not a common factor)',
                                   {'event': ev, 'top': t.tolist(), 'bottom': b.tolist()})
+        # a phase fraction at a bound sends ALL partitioned material to one outlet; when both outlets are
+        # non-empty anyway (forced chemicals) the given K are then not reproduced.  That is only right when the
+        # Rachford-Rice balance with the forced amounts has no interior root (independent bisection here)
+        if phi in (0., 1.) and not reported and t.sum() > 0 and b.sum() > 0 and f0[idx].sum() > 0:
+            root = self.rr_root(f0, idx, K, ev)
+            if root is not None and 1e-6 < root < 1 - 1e-6:
+                self.fail('partition-K', f'partition returned phi={phi} (all partitioned material in one outlet) although '
+                          f'the balance with the forced chemicals has the interior solution phi={root:.6g}: the given '
+                          f'K are not reproduced between two non-empty outlets',
+                          {'event': ev, 'top': t.tolist(), 'bottom': b.tolist()})
         return ['ok', float(phi).hex()]
+
+    def rr_root(self, f0, idx, K, ev):
+        pk = self.pk
+        mol = f0[idx]
+        Fa = float(sum(f0[pk.pos[c]] for c in ev['top_chemicals']))
+        Fb = float(sum(f0[pk.pos[c]] for c in ev['bottom_chemicals']))
+        F = float(mol.sum()) + Fa + Fb
+        if not F > 0:
+            return None
+        z, za, zb = mol / F, Fa / F, Fb / F
+
+        def g(phi):
+            v = float((z * (1. - K) / (1. + phi * (K - 1.))).sum())
+            if za:
+                v -= za / phi
+            if zb:
+                v += zb / (1. - phi)
+            return v
+        lo = 1e-12 if za else 0.
+        hi = 1. - 1e-12 if zb else 1.
+        glo, ghi = g(lo), g(hi)
+        if not (glo < 0. < ghi):
+            return None
+        for _ in range(200):
+            mid = 0.5 * (lo + hi)
+            if g(mid) < 0.:
+                lo = mid
+            else:
+                hi = mid
+        return 0.5 * (lo + hi)
 
     def do_phase_split(self, ev):
         feed = self.S[ev['feed']]
